@@ -2,7 +2,7 @@
 REG_DRAFT = dict(
     engine='E1-enum',
     technique='exhaustive enumeration of divergence mechanism x program position x sandbox mode, each run as a real CLI process under an address-space limit and a wall-clock cap',
-    text="A finite family per way of not finishing: 13 never-terminating loop/recursion forms (while, for, self/mutual/closure/method/callback recursion, endless printing, read_line on an open stdin), 9 value-growth forms whose size doubles or nests per iteration (string, list, Option, tuple, dict; by loop and by recursion), every public prelude function and method called on large arguments (256 KiB string, 65k-element list, i64 extremes; does one interpreter step stay bounded?), recursion to every depth 985..1015 around the 1 000-frame limit (plus 10, 100, 2 000) and a ladder of values nested 10..1 000 (quick) / 10..100 000 (thorough) deep that are then dropped, printed, compared or shown. Each is placed at top level, in a function, closure, method and test body and run with `playground-run` and `sandboxed-test` (growth forms: reduced cross in quick). Oracle: the process exits by itself with status 0 and a JSON result (value, error, tick- or stack-limit error): no signal, no panic (101), no allocation failure under RLIMIT_AS, not the wall cap (60 s; a timed-out case is re-run alone with 3x the cap before it counts).",
+    text="A finite family per way of not finishing: 13 never-terminating loop/recursion forms (while, for, self/mutual/closure/method/callback recursion, endless printing, read_line on an open stdin), 9 value-growth forms whose size doubles or nests per iteration (string, list, Option, tuple, dict; by loop and by recursion), every public prelude function and method called on large arguments (256 KiB string, 65k-element list, i64 extremes; does one interpreter step stay bounded?), recursion to every depth 994..1006 (quick) / 985..1015 (thorough) around the 1 000-frame limit (plus 10, 100, 900, 1 100, 2 000) and a ladder of values nested 10..1 000 (quick) / 10..100 000 (thorough) deep that are then dropped, printed, compared or shown. Each is placed at top level, in a function, closure, method and test body and run with `playground-run` and `sandboxed-test` (growth forms: reduced cross in quick). Oracle: the process exits by itself with status 0 and a JSON result (value, error, tick- or stack-limit error): no signal, no panic (101), no allocation failure under RLIMIT_AS, not the wall cap (60 s; a timed-out case is re-run alone with 3x the cap before it counts).",
     note='Limits are the fixed sandbox limits (100 000 ticks, 1 000 frames). Address space is limited to 1 GiB; for programs that are unbounded by construction (the growth family) any limit is fair, an allocation failure of a bounded program is re-run under 4 GiB before it counts. Re-runs go two at a time rather than strictly alone. Only the listed mechanisms are covered, not their compositions.',
     design_ref='DESIGN.md §6 C25',
 )
@@ -152,7 +152,7 @@ def builtin_calls(ctx):
 
 
 def depth_cases(quick):
-    ds = sorted(set([10, 100, 2000] + list(range(985, 1016))))
+    ds = sorted(set([10, 100, 900, 1100, 2000] + (list(range(994, 1007)) if quick else list(range(985, 1016)))))
     kinds = [("deep recursion: function", "fun deep(n: Int): Int { if n == 0 { 0 } else { 1 + deep(n - 1) } }\n", "deep({d})"),
              ("deep recursion: method", "method deep_m(this: Int): Int { if this == 0 { 0 } else { 1 + (this - 1).deep_m() } }\n", "{d}.deep_m()"),
              ("deep recursion: closure passed to itself", "", "let dk = fun(g, n) { if n == 0 { 0 } else { 1 + g(g, n - 1) } }\ndk(dk, {d})")]
@@ -207,8 +207,6 @@ def run(ctx):
     for name, d, defs, body in depth_cases(ctx.quick):
         for pos in POSITIONS:
             for mode in MODES:
-                if ctx.quick and pos in ("closure", "method") and not (995 <= d <= 1005):
-                    continue
                 add(f"{name} to depth {d}", defs, body, pos, mode, group="deep-recursion")
     depths = [10, 100, 1000] if ctx.quick else [10, 100, 1000, 10000, 100000]
     ctx.bound("nesting_depths", depths)
